@@ -27,10 +27,10 @@ theorem mptPut_eq (root r nib leaf : Int) (klen vlen : Nat) (e : Bool) :
     · have : (klen : Int) > 68 := by omega
       simp [h1, h1', h2, this]
     · have h2' : ¬ ((klen : Int) > 68) := by omega
-      by_cases h3 : vlen > 65539
-      · have : (vlen : Int) > 65539 := by omega
+      by_cases h3 : vlen > 131074
+      · have : (vlen : Int) > 131074 := by omega
         simp [h1, h1', h2, h2', h3, this]
-      · have h3' : ¬ ((vlen : Int) > 65539) := by omega
+      · have h3' : ¬ ((vlen : Int) > 131074) := by omega
         cases e <;> simp [h1, h1', h2, h2', h3, h3']
 
 theorem mptPut_nil (root r nib leaf : Int) (klen vlen : Nat) (e : Bool) :
@@ -103,10 +103,10 @@ theorem mptDecode_limits (depth key next val mk no nn : Int) (rerr ferr : Bool) 
       simp [h, this]
     · have : ¬ ((sz : Int) > 136) := by omega
       simp [h, this]
-  · by_cases h : sz > 65539
-    · have : (sz : Int) > 65539 := by omega
+  · by_cases h : sz > 131074
+    · have : (sz : Int) > 131074 := by omega
       simp [h, this]
-    · have : ¬ ((sz : Int) > 65539) := by omega
+    · have : ¬ ((sz : Int) > 131074) := by omega
       simp [h, this]
 
 /-- `encodeBinaryAsChild` (base.go:81-90): an empty child is one byte, any other child a type byte and
@@ -115,7 +115,7 @@ theorem mptEncodeAsChild_eq (e : Bool) :
     GoFuncs.mptEncodeAsChild e = if e then ["w.WriteB"] else ["w.WriteB", "w.WriteBytes"] := by
   cases e <;> rfl
 
-example : GoFuncs.mptPut 7 68 65539 false 0 0 9 false = ("ok", 9) ∧ GoFuncs.mptPut 7 69 0 false 0 0 9 false = ("err", 7) ∧
-    GoFuncs.mptPut 7 0 0 false 0 0 9 false = ("err", 7) ∧ GoFuncs.mptPut 7 1 65540 false 0 0 9 false = ("err", 7) := by decide
+example : GoFuncs.mptPut 7 68 131074 false 0 0 9 false = ("ok", 9) ∧ GoFuncs.mptPut 7 69 0 false 0 0 9 false = ("err", 7) ∧
+    GoFuncs.mptPut 7 0 0 false 0 0 9 false = ("err", 7) ∧ GoFuncs.mptPut 7 1 131075 false 0 0 9 false = ("err", 7) := by decide
 
 end NeoModel.GoFuncsTie
